@@ -241,6 +241,31 @@ def run_property(ctx, own, plans, scenario_filter=None, nscen=700, extra_cov=Non
     ctx.write_evidence("model_checking", cov)
 
 
+def concurrent_replies_stage(ctx, own, thorough):
+    """Byte transparency of answers under concurrency (C03): bursts of 48..127 queries written in one piece by three clients
+    next to the one-at-a-time workers, answers delayed and reordered, every third plain answer about 20 KiB; the fake backend records a digest of every answer it sends, the
+    client of every frame it receives.  A frame that names a request's token but is none of the answers a backend gave to
+    it (`Altered`), a frame on a stream that no request used, a second frame on a stream are reported under `own`."""
+    n = "4000" if thorough else "700"
+    v, st, reqinfo, _ = run_traces(ctx, "big-answers-2x2", ["-random", n, "-nodes", "2", "-numconns", "2", "-clients", "4", "-workers", "8",
+                                                             "-round", "350", "-delay", "2", "-bigevery", "3", "-okbias", "8", "-nodrops",
+                                                             "-localbursts", "3", "-burstsforwarded"])
+    keys = []
+    for b in v["bad"]:
+        info = reqinfo.get(b["r"], {})
+        if b["p"] == "HARNESS":
+            if keys:
+                continue
+            raise core.Inconclusive("trace inconsistent with the harness model: %s" % b)
+        if b["p"] in ("C03", "C02", "C01"):
+            key = "%s:answers-under-concurrency:%s" % (own.lower(), slug(b["what"]))
+            ctx.violation(key, "answers of up to 20 KiB, pipelined and reordered: %s (request %s)" % (b["what"], info),
+                          replay={"violation": b, "request": info})
+            keys.append(key)
+    ctx.notes["answers_under_concurrency"] = {"requests": len(reqinfo), "events": v["total"], "violations": len(keys)}
+    return keys
+
+
 def override_stage(ctx, own, thorough):
     """Pipelined and retried writes under a write-consistency override (every write is re-encoded by the proxy): the
     recorded trace is validated against TraceRequestObs; a request that reaches the backend with another request's
